@@ -61,10 +61,12 @@ DoReturn ==
                  IF Top(stack).kind = "n" /\ Top(p).ph = "cb2" THEN [p EXCEPT ![Len(p)].ph = "fin"] ELSE p)
     /\ UNCHANGED <<tbl, blk, base, nmg, ntx>>
 SetPhase(ph, c) == stack' = [stack EXCEPT ![Len(stack)].ph = ph, ![Len(stack)].tgt = c]
+\* (a contract without a _deploy method is not called back)
+CbPhase(man) == IF HasMeth(man, "_deploy", 2) THEN "cb" ELSE "fin"
 DoDeploy(c, man) ==
-    /\ tbl' = Deployed(tbl, c, man, "n0") /\ nmg' = nmg + 1 /\ SetPhase("cb", c) /\ UNCHANGED <<blk, base, ntx>>
+    /\ tbl' = Deployed(tbl, c, man, "n0") /\ nmg' = nmg + 1 /\ SetPhase(CbPhase(man), c) /\ UNCHANGED <<blk, base, ntx>>
 DoUpdate(c, man, nef) ==
-    /\ tbl' = Updated(tbl, c, man, nef) /\ nmg' = nmg + 1 /\ SetPhase("cb", c) /\ UNCHANGED <<blk, base, ntx>>
+    /\ tbl' = Updated(tbl, c, man, nef) /\ nmg' = nmg + 1 /\ SetPhase(CbPhase(man), c) /\ UNCHANGED <<blk, base, ntx>>
 DoDestroy(c, block) ==
     /\ tbl' = Destroyed(tbl, c) /\ blk' = (IF block THEN blk \cup {c} ELSE blk) /\ nmg' = nmg + 1 /\ SetPhase("fin", c)
     /\ UNCHANGED <<base, ntx>>
